@@ -261,9 +261,9 @@ type compiled struct {
 	nDIDs    int
 	dids     []did.DID
 	events   []cEvent
-	arrivals []int       // arrival item -> event index (events, then duplicates)
+	arrivals []int                  // arrival item -> event index (events, then duplicates)
 	arrTx    []didstore.Transaction // arrival item -> the transaction value handed to Store.Add
-	times    []time.Time // every signing time, one second before the first and one after the last
+	times    []time.Time            // every signing time, one second before the first and one after the last
 }
 
 func refOf(name string, i int, rank int) hash.SHA256Hash {
